@@ -87,6 +87,9 @@ type FnExec struct {
 	assertHit map[int]bool
 	locals []localAlloc // non-escaping stack variables: callees cannot touch them
 	ownedRegions []*ownedRegion
+	quants   []quantFact
+	idxTerms []Term
+	idxSeen  map[Term]bool
 	freshObjs []*freshObj // objects allocated for this function (fresh results) whose address has not escaped
 	derived map[Term]Term // field/element address -> base address it was derived from
 	oblNames map[string]int
@@ -135,6 +138,71 @@ func (x *FnExec) noteEscape(v Val) {
 			}
 			t = b
 		}
+	}
+}
+
+// Quantifier instantiation help. For a closed formula Q = (forall j. B(j)) met anywhere in a
+// contract, (Q => B(t)) is valid for every integer term t, and (Q or not B(sk)) with a fresh
+// constant sk is conservative (sk names a counterexample if there is one). Both are asserted,
+// for t ranging over the index terms of the function (slice/array indices, range counters) and
+// the skolem constants of the other quantified formulas, so that the solver does not depend on
+// e-matching through linear arithmetic. Sound in hypothesis and goal position alike.
+type quantFact struct {
+	q, bv, body Term
+}
+
+func substVar(body, bv, t Term) Term {
+	var b strings.Builder
+	i := 0
+	for i < len(body) {
+		j := strings.Index(body[i:], bv)
+		if j < 0 {
+			b.WriteString(body[i:])
+			break
+		}
+		j += i
+		end := j + len(bv)
+		okBefore := j == 0 || !isSymChar(body[j-1])
+		okAfter := end >= len(body) || !isSymChar(body[end])
+		b.WriteString(body[i:j])
+		if okBefore && okAfter {
+			b.WriteString(t)
+		} else {
+			b.WriteString(bv)
+		}
+		i = end
+	}
+	return b.String()
+}
+
+func isSymChar(c byte) bool {
+	return c == '_' || c == '!' || c == '.' || c == '$' || (c >= '0' && c <= '9') || (c >= 'a' && c <= 'z') || (c >= 'A' && c <= 'Z')
+}
+
+func (x *FnExec) registerQuant(q, bv, body Term) {
+	if len(x.quants) >= 40 {
+		return
+	}
+	sk := x.ctx.Fresh("qsk", SInt)
+	x.ctx.Assert(Or(q, Not(substVar(body, bv, sk))))
+	for _, t := range x.idxTerms {
+		x.ctx.Assert(Implies(q, substVar(body, bv, t)))
+	}
+	x.quants = append(x.quants, quantFact{q, bv, body})
+	x.addIdxTerm(sk)
+}
+
+func (x *FnExec) addIdxTerm(t Term) {
+	if x.idxSeen == nil {
+		x.idxSeen = map[Term]bool{}
+	}
+	if x.idxSeen[t] || len(x.idxTerms) >= 60 {
+		return
+	}
+	x.idxSeen[t] = true
+	x.idxTerms = append(x.idxTerms, t)
+	for _, f := range x.quants {
+		x.ctx.Assert(Implies(f.q, substVar(f.body, f.bv, t)))
 	}
 }
 
